@@ -9,6 +9,9 @@ use std::collections::{BTreeMap, BTreeSet};
 pub fn run(cfg: &RunCfg, trace: bool) -> RunOut {
     let c03 = cfg.property == "C03";
     run_loop(cfg, trace, true, &mut |cx, i, op, before, _want, got, snaps| {
+        if c03 && fault_window(cx, i) {
+            cx.out.count("probe.c03.step_with_injected_failure_armed");
+        }
         let after = if i == 0 { "initial".to_string() } else { format!("{}({})", op.kind(), op_tclass(before, op)) };
         if let Res::Panic(m) = got {
             // a panic is C13's business; here it only ends the run (state may be arbitrary)
